@@ -4,6 +4,7 @@ import (
 	"bytes"
 	"errors"
 	"fmt"
+	"io"
 	"math"
 	"strings"
 	"time"
@@ -18,16 +19,55 @@ import (
 
 // c19Read runs igc.Read under the monitors every decode must satisfy.
 func c19Read(c *fw.Ctx, data []byte, how string) (*igc.T, bool) {
-	cr := &countingReader{b: data}
+	// the stream is delivered the way readers deliver streams: all at once, in
+	// pieces of any size, with the last piece and io.EOF in one call, with empty
+	// reads in between; one input in three is read twice, delivered differently,
+	// and both reads must tell the same
+	mode := c.R.Intn(5)
+	cr := &c19Reader{b: data, mode: mode, r: fw.NewRand(uint64(len(data)), "C19", "reader", mode)}
 	var t *igc.T
 	var err error
 	if c.Guard("panic", func() { t, err = igc.Read(cr) }) {
 		return nil, false
 	}
 	c.Eval(1)
+	c.Count("reader_" + c19ReaderModes[mode])
 	if cr.reads > 4*len(data)+16 {
 		c.Fail("too-many-reads", "%s: reading %d bytes issued %d Read calls", how, len(data), cr.reads)
 		return nil, false
+	}
+	if t != nil && t.LineString != nil && c.R.Chance(1, 3) {
+		mode2 := (mode + 1 + c.R.Intn(4)) % 5
+		cr2 := &c19Reader{b: data, mode: mode2, r: fw.NewRand(uint64(len(data)), "C19", "reader", mode2)}
+		var t2 *igc.T
+		var err2 error
+		if c.Guard("panic", func() { t2, err2 = igc.Read(cr2) }) {
+			return nil, false
+		}
+		c.Eval(1)
+		c.Count("read_twice_through_different_readers")
+		a, b := c19Snap(t, err), c19Snap(t2, err2)
+		if a != b {
+			c.Fail("reader-dependent", "%s: the same bytes read through a reader delivering %s and one delivering %s give different results: %s vs %s", how, c19ReaderModes[mode], c19ReaderModes[mode2], clipStr(a, 300), clipStr(b, 300))
+			return nil, false
+		}
+	}
+	if t != nil && t.LineString != nil {
+		// a result stays what it is while later streams are read
+		ht, he := t, err
+		if !holdRecheckScribble(c, "c19-track", "igc.Read result", func() string { return c19Snap(ht, he) }, func() {
+			hs := ht.Headers[:cap(ht.Headers)]
+			for i := range hs {
+				hs[i] = igc.Header{Source: "X", Key: "JUNK", KeyExtra: "junk", Value: "overwritten by the caller"}
+			}
+			fc := ht.LineString.FlatCoords()
+			fc = fc[:cap(fc)]
+			for i := range fc {
+				fc[i] = -4.25e200
+			}
+		}) {
+			return nil, false
+		}
 	}
 	if t == nil {
 		c.Fail("nil-result", "%s: igc.Read returned a nil *T (err=%v)", how, err)
@@ -73,6 +113,64 @@ func c19Read(c *fw.Ctx, data []byte, how string) (*igc.T, bool) {
 		}
 	}
 	return t, true
+}
+
+var c19ReaderModes = []string{"everything in one call", "pieces of 1..7 bytes", "pieces of 1..600 bytes", "the last piece together with io.EOF", "pieces with empty reads in between"}
+
+// c19Reader delivers b in the manner of its mode, counting Read calls.
+type c19Reader struct {
+	b     []byte
+	pos   int
+	reads int
+	mode  int
+	r     *fw.Rand
+	gap   bool
+}
+
+func (r *c19Reader) Read(p []byte) (int, error) {
+	r.reads++
+	if len(p) == 0 {
+		return 0, nil
+	}
+	if r.pos >= len(r.b) {
+		return 0, io.EOF
+	}
+	max := len(p)
+	switch r.mode {
+	case 1:
+		max = r.r.Range(1, 7)
+	case 2, 3:
+		max = r.r.Range(1, 600)
+	case 4:
+		if r.gap = !r.gap; r.gap {
+			return 0, nil
+		}
+		max = r.r.Range(1, 100)
+	}
+	if max > len(p) {
+		max = len(p)
+	}
+	n := copy(p[:max], r.b[r.pos:])
+	r.pos += n
+	if r.mode == 3 && r.pos >= len(r.b) {
+		return n, io.EOF
+	}
+	return n, nil
+}
+
+// c19Snap renders everything a Read returned.
+func c19Snap(t *igc.T, err error) string {
+	if t == nil || t.LineString == nil {
+		return fmt.Sprintf("nil track, err=%v", err)
+	}
+	es := ""
+	if err != nil {
+		func() {
+			defer func() { recover() }()
+			es = err.Error()
+		}()
+	}
+	return fmt.Sprintf("%q %s %s", t.Headers, fw.Fs(t.LineString.FlatCoords()), es)
 }
 
 type fix struct {
